@@ -197,7 +197,17 @@ func checkConc(c *concCase) pbt.Result {
 			}
 		}
 	}
+	sch.Workers = "golang.org/x/mod/sumdb."
 	sch.Run(func() bool { return int(done.Load()) == total })
+	if sch.Deadlock {
+		r.NonTrivial = true
+		r.Fail = pbt.Failf("honest-concurrent-deadlocked", "one log, genuine responses: the lookups never return: %v\nschedule (%d decisions): %v", sch.Err, len(sch.History), sch.History)
+		if len(c.History) == 0 {
+			c.History = append([]string(nil), sch.History...)
+			c.Choices = nil
+		}
+		return r
+	}
 	wg.Wait()
 	if sch.Err != nil {
 		r.Skip = true
